@@ -16,6 +16,12 @@ n = c = 0
 for mf in sorted(glob.glob(os.path.join(V, 'seeded', '*', 'meta.json'))):
     m = json.load(open(mf)); name = os.path.basename(os.path.dirname(mf))
     cm = m.get('confirmed_by_me', {})
+    obsolete = cm.get('demo_with_patch_exit') == 0
+    if obsolete:
+        clean0 = lambda s0, k0: re.sub(r'\s+', ' ', str(s0)).replace('|', '/')[:k0]
+        rows.append('| %s: %s | %s | obsolete on the current tree: with the patch applied the demonstration passes (a later `fix:` commit in /repo removed the condition it needs); kept for the record, not counted |'
+                    % (name, clean0(m.get('title', ''), 170), clean0(m.get('needs_to_manifest', ''), 200)))
+        continue
     n += 1; c += 1 if cm.get('caught') else 0
     clean = lambda s, k: re.sub(r'\s+', ' ', str(s)).replace('|', '/')[:k]
     tail = clean((cm.get('check_output_tail') or [''])[-1], 140)
